@@ -323,6 +323,35 @@ class Run:
                                      "tag": "spec-hostile:%s" % ("ok" if rp["ok"] else rp["why"])}]) + "\n")
         return out, reports
 
+    def spec_images(self, nvalues, types=None, reencode=True):
+        """direction A: wire images rendered by the SPECIFICATION (EncMsg) are decoded by the real code (and the result re-encoded)"""
+        vd = self.build()
+        vals = os.path.join(self.scratch, "img-values-%d.ndjson" % self.seed)
+        cmd = [vd, "values", "-seed", str(self.seed + 7), "-n", str(nvalues), "-out", vals]
+        if types:
+            cmd += ["-types", ",".join(types)]
+        p = subprocess.run(cmd, capture_output=True, text=True, env=dict(os.environ, VERIF_SCHEMA=SCHEMA))
+        if p.returncode != 0:
+            raise Broken("values failed: %s" % p.stderr[-2000:])
+        r = self.model("Images.tla", "Images.cfg", env={"VERIF_VALUES": vals}, workers=1, note="specification-built wire images (SelfDecodes: every pinned rendering decodes and consumes exactly itself)")
+        reports = []
+        for line in tlc_prints(r["out"], "IMAGE"):
+            reports += json.loads(parse_tla_string(line))
+        if not reports:
+            raise Broken("the specification produced no image")
+        out = os.path.join(self.scratch, "hist-spec-images-%d.ndjson" % self.seed)
+        with open(out, "w") as f:
+            for k, rp in enumerate(reports):
+                ops = [{"op": "load", "b": "b", "bytes": rp["w"] + ([9, 9] if k % 3 == 0 else [])},
+                       {"op": "decode", "b": "b", "o": "r", "t": rp["t"], "fresh": True, "tag": "spec-image"}]
+                if reencode:
+                    if k % 2 == 1:
+                        ops.append({"op": "scribble", "b": "b", "k": 16, "tag": "recycle-receive-buffer"})
+                    ops.append({"op": "encode", "b": "b2", "o": "r", "tag": "reencode"})
+                f.write(json.dumps(ops) + "\n")
+        self.cov["spec_built_images"] = self.cov.get("spec_built_images", 0) + len(reports)
+        return out
+
     def child_trace(self, hist_path, label, shards=None, vmem_kb=1572864):
         """run histories in child processes under ulimit -v; an aborted or hung child becomes an event"""
         vd = self.build()
@@ -464,6 +493,12 @@ class Run:
             p = subprocess.run([vd, "conc", "sched", "-in", ip, "-out", op], capture_output=True, text=True, timeout=3600,
                                env=dict(os.environ, VERIF_SCHEMA=SCHEMA))
             if p.returncode != 0:
+                lf = library_fault(p.stderr)
+                if lf:
+                    done = [json.loads(l) for l in open(op)] if os.path.exists(op) else []
+                    nxt = json.loads(parts[i][len(done)]) if len(done) < len(parts[i]) else None
+                    return done + [{"n": len(done) + 1, "verdict": "violation", "step": -1, "schedule": nxt,
+                                    "why": "the process crashed while this schedule was forced: " + lf}]
                 raise Broken("conc sched failed: " + p.stderr[-1500:])
             return [json.loads(l) for l in open(op)]
 
@@ -506,6 +541,12 @@ class Run:
             log("  stress procs=%d calls=%d: DATA RACE reported by the race detector" % (procs, calls))
             return
         if p.returncode != 0:
+            lf = library_fault(p.stderr)
+            if lf:
+                rp = self.write_replay({"kind": "race", "cmd": " ".join(cmd[1:]), "report": p.stderr[:6000]})
+                self.violations.append({"what": "the registry stress run crashed: " + lf, "replay": rp})
+                log("  stress procs=%d calls=%d: process crashed: %s" % (procs, calls, lf))
+                return
             raise Broken("conc stress failed: rc=%d %s" % (p.returncode, p.stderr[-1500:]))
         self.lin_validate(path, "stress procs=%d calls=%d names=%d" % (procs, calls, names))
 
@@ -759,6 +800,18 @@ class Run:
             "FAIL" if self.violations else "PASS", self.prop, self.tier, self.seed, self.cov["states"], self.cov["transitions"],
             self.cov["traces_validated_against_impl"], self.cov["evaluations"], time.time() - self.t0))
         return 1 if self.violations else 0
+
+
+LIB_FAULTS = ("fatal error: sync: Unlock of unlocked", "fatal error: sync: RUnlock of unlocked", "fatal error: concurrent map",
+              "sync: unlock of unlocked mutex", "sync: negative WaitGroup")
+
+
+def library_fault(stderr):
+    """a Go runtime fault that only misuse of synchronisation inside the library can cause (never the harness, which owns no lock it unlocks)"""
+    for f in LIB_FAULTS:
+        if f in stderr:
+            return f
+    return None
 
 
 def count_overlaps(lines):
